@@ -12,7 +12,7 @@ ANCHORS = ["pyoma2.functions.ssi:build_hank", "pyoma2.algorithms.ssi:SSIdat.run"
 REQUIRED_MONITORS = ["impulse-pairs(cov_mm)", "impulse-pairs(cov_R)", "definition(cov_mm)", "definition(cov_R)", "projection-gram(dat)",
                      "bilinearity(cov_mm)", "bilinearity(cov_R)", "result.H@SSIcov", "result.H@SSIdat"]
 ALL_STATES = [f"l={l}" for l in range(1, 5)] + [f"br={b}" for b in range(1, 6)] + ["ref=subset", "ref=all", "ref unordered"]
-REQUIRED_STATES = ["reference channels counted from the end (negative indices)", "build_hank called with calc_unc / nb by position"] + [f"l={l}" for l in range(1, 5)] + [f"br={b}" for b in range(1, 6)] + ["ref=subset", "Yref is Y (same object)", "same instance re-run with another ref_ind",
+REQUIRED_STATES = ["channels with a static offset larger than their range", "reference channels counted from the end (negative indices)", "build_hank called with calc_unc / nb by position"] + [f"l={l}" for l in range(1, 5)] + [f"br={b}" for b in range(1, 6)] + ["ref=subset", "Yref is Y (same object)", "same instance re-run with another ref_ind",
                                                                                                  "integer-typed records", "ordmax above br * (number of references)", "matrix requested together with the uncertainty factor", "one run-parameter object shared by SSIdat and SSIcov", "record amplitude below 1e-6", "two nearly identical reference channels"]
 RULE = ("(a) exhaustive over a basis: for every channel count 1..4, every reference subset, br 1..5 and the listed record lengths, build_hank "
         "is evaluated on ALL pairs of unit impulses (e_{a,s}, e_{b,t}); each pair must light exactly the cells (i,a;j,b) with lag i+j+1 "
@@ -157,7 +157,7 @@ def run_basis(ctx, case):
         ctx.sample({"entry": "ssi.build_hank on all unit-impulse pairs", "channels": l, "ref": ref, "br": br, "Ndat": Nd, "pairs": (l * Nd) * (r * Nd)})
 
 
-def run_random(ctx, rng):
+def run_random(ctx, rng, case_k=0):
     from pyoma2.functions import ssi
 
     l = int(rng.integers(1, 9))
@@ -169,6 +169,12 @@ def run_random(ctx, rng):
     Y = gen.coloured(rng, l, Nd) * 10 ** (rng.uniform(-2, 2) if rng.random() < 0.7 else rng.uniform(-10, -2))
     if np.std(Y) < 1e-6:
         ctx.state("record amplitude below 1e-6")
+    if case_k % 6 == 1 and Y.dtype.kind == "f":
+        # records that were not detrended: gravity on a DC accelerometer (9.81 +- 0.05), a strain-gauge bias - every sample of a channel on one
+        # side of zero, further away than the channel's own spread. The matrix is that of the records as given.
+        for i in rng.permutation(l)[: int(rng.integers(1, l + 1))]:
+            Y[i] = Y[i] + float(rng.choice([-1, 1]) * rng.uniform(3, 200)) * np.ptp(Y[i])
+        ctx.state("channels with a static offset larger than their range")
     if l >= 3 and r >= 2 and rng.random() < 0.25:
         # two reference sensors side by side: nearly identical records (full rank, but ill conditioned past outputs)
         Y[refidx[1]] = Y[refidx[0]] + float(10 ** rng.uniform(-7, -4)) * np.std(Y[refidx[0]]) * gen.coloured(rng, 1, Nd)[0]
@@ -359,6 +365,6 @@ def run_case(ctx, case):
     if case["cls"] == "impulse_basis":
         run_basis(ctx, case)
     elif case["cls"] == "random_definition":
-        run_random(ctx, gen.rng_of(case))
+        run_random(ctx, gen.rng_of(case), case["k"])
     else:
         run_classes(ctx, gen.rng_of(case))
